@@ -41,8 +41,11 @@ OPS = {
 }
 NO_V1 = ("bulkget", "bulkwalk", "bulktable")
 
-PERTURB = ("echo", "id+1", "id-1", "id0", "previd", "foreign", "id+1/genErr", "id+1/noSuchName", "id+2^32", "id-2^32", "id+2^32/noSuchName", "wrongcomm", "emptycomm", "otherversion", "wrongcomm/noSuchName", "prefixcomm", "longercomm")
-V3_PERTURB = PERTURB[:11]
+PERTURB = ("echo", "id+1", "id-1", "id0", "previd", "foreign", "id+1/genErr", "id+1/noSuchName", "id+2^32", "id-2^32", "id+2^32/noSuchName",
+           # error responses naming no binding (error-index 0, the usual shape
+           # of tooBig / genErr) or one beyond the list, for another request
+           "id+1/tooBig-index0", "id-1/genErr-index9", "foreign/noSuchName-index0", "wrongcomm", "emptycomm", "otherversion", "wrongcomm/noSuchName", "prefixcomm", "longercomm")
+V3_PERTURB = PERTURB[:14]
 
 
 def creds(version):
@@ -57,6 +60,8 @@ DISCO_PERTURB = ("echo", "msgid+1", "msgid-1", "msgid-foreign")
 def make_run(opname, version):
     op = OPS[opname]
     v3 = version.startswith("v3")
+    reboot = version.endswith("+reboot")
+    version = version.replace("+reboot", "")
 
     def run(ctx):
         CLOCK.reset()
@@ -113,6 +118,18 @@ def make_run(opname, version):
                 resp["request_id"] = sent_id + 2**32
                 resp["es"], resp["ei"] = 2, 1
                 resp["varbinds"] = list(req["varbinds"])
+            elif kind == "id+1/tooBig-index0":
+                resp["request_id"] = sent_id + 1
+                resp["es"], resp["ei"] = 1, 0
+                resp["varbinds"] = []
+            elif kind == "id-1/genErr-index9":
+                resp["request_id"] = sent_id - 1
+                resp["es"], resp["ei"] = 5, 9
+                resp["varbinds"] = list(req["varbinds"])
+            elif kind == "foreign/noSuchName-index0":
+                resp["request_id"] = 424242
+                resp["es"], resp["ei"] = 2, 0
+                resp["varbinds"] = list(req["varbinds"])
             elif kind == "prefixcomm":
                 resp["community"] = b"publi"
             elif kind == "longercomm":
@@ -136,6 +153,17 @@ def make_run(opname, version):
             exchanges.append({"sent_id": sent_id, "resp_id": resp["request_id"], "kind": kind})
             return resp
 
+        if reboot:
+            # the engine is known and the agent has restarted since: the next
+            # request is answered by a notInTimeWindow report, the client
+            # discovers again and repeats the request - the repeated request's
+            # response is judged like any other
+            warm, warm_exc = ops.run_op(client, ("get", (1, 3, 1, 1)))
+            if warm_exc is not None:
+                raise world.HarnessError("warm-up exchange failed: %r" % (warm_exc,))
+            ag.reboot()
+            sender.calls = []
+        log0 = len(ag.log)
         ag.response_hook = hook
         if v3:
             ag.msg_hook = mhook
@@ -165,7 +193,7 @@ def make_run(opname, version):
         if bad_disco is not None:
             if ename != "InvalidResponseId":
                 violations.append({"kind": "foreign-discovery-message-id-not-refused", "detail": {**facts, "result": result}, "facts": facts})
-            if len(ag.log) > 1:
+            if len(ag.log) - log0 > (2 if reboot else 1):
                 violations.append({"kind": "request-sent-after-foreign-discovery-reply", "detail": facts, "facts": facts})
             obs = (ename, None, len(exchanges), False)
             return obs, violations
@@ -200,7 +228,7 @@ def make_run(opname, version):
 
 def shards(tier):
     out = []
-    v3s = ["v3:authNoPriv:md5"] if tier == "quick" else ["v3:noAuthNoPriv:md5", "v3:authNoPriv:md5", "v3:authPriv:sha1"]
+    v3s = ["v3:authNoPriv:md5", "v3:authNoPriv:md5+reboot"] if tier == "quick" else ["v3:noAuthNoPriv:md5", "v3:authNoPriv:md5", "v3:authPriv:sha1", "v3:authNoPriv:md5+reboot", "v3:authPriv:sha1+reboot"]
     for version in ["v2c", "v1"] + v3s:
         for opname in OPS:
             if version == "v1" and opname in NO_V1:
